@@ -35,7 +35,7 @@ func c19Gen(r *rand.Rand, tier string) []spec.Case {
 		for j := range ops {
 			ops[j] = pick(r, weights)
 		}
-		add("seq", spec.C19Case{Mode: modeFor(i), Threads: [][]string{ops}})
+		add("seq", spec.C19Case{Mode: modeFor(i), Threads: [][]string{ops}, Jitter: r.Intn(2) == 0})
 	}
 	for i := 0; i < ncon; i++ {
 		g := 2 + r.Intn(7)
